@@ -8,7 +8,7 @@ import Mathlib.Data.List.Nodup
 the product of the potentials on that side.  The recursion `M_rec` (Shafer–Shenoy) and its special
 case `j = i` (the clique marginal) are the mathematical content of belief propagation.
 -/
-namespace PGM.Sem
+namespace PGM.Sem.BP
 open PGM PGM.JT
 set_option linter.unusedSectionVars false
 set_option linter.unusedVariables false
@@ -236,4 +236,4 @@ theorem M_self (c : Clique) (hc : c ∈ t.nodes) (τ : Attr → Nat) :
 
 end
 
-end PGM.Sem
+end PGM.Sem.BP
